@@ -19,7 +19,11 @@ import (
 )
 
 // StuckLimit is the real time a task may run between two yields.
-var StuckLimit = 60 * time.Second
+var StuckLimit = 20 * time.Second
+
+// StuckHandler, when set, is called (on the scheduler goroutine) when a task neither yields
+// nor finishes within StuckLimit; it must terminate the process.
+var StuckHandler func(s *Sim, t *Task, stacks string)
 
 // Epoch is where simulated time starts (well after any real mtime, so that a file whose
 // mtime was not fixed up is recognisable).
@@ -536,10 +540,10 @@ func (s *Sim) Run() {
 			// control (or spins). This is an infrastructure failure, never a verdict.
 			buf := make([]byte, 1<<20)
 			n := runtime.Stack(buf, true)
-			fmt.Fprintf(os.Stderr, "SIM-STUCK: task %s (op %d) did not yield within %v; seed %d\n%s\n", t.Name, t.OpCount, StuckLimit, s.Cfg.Seed, buf[:n])
-			if s.OnStuck != nil {
-				s.OnStuck()
+			if StuckHandler != nil {
+				StuckHandler(s, t, string(buf[:n])) // does not return
 			}
+			fmt.Fprintf(os.Stderr, "SIM-STUCK: task %s (op %d) did not yield within %v; seed %d\n%s\n", t.Name, t.OpCount, StuckLimit, s.Cfg.Seed, buf[:n])
 			os.Exit(3)
 		}
 		s.cur = nil
